@@ -30,6 +30,7 @@ DRAINS = {
     ("<libwild::layout::SyntheticSymbolsLayoutState as libwild::layout::SymbolRequestHandler>::load_symbol", "pop", ""): ("set-only", None, "start/stop section requests are forwarded as work items; the kept set, not the order, is consumed"),
     ("libwild::layout::GroupActivationInputs::activate_group", "pop", "delay_processing"): ("set-only", None, "capacity-1 queue holding the single delayed group (C39)"),
     ("libwild::resolution::resolve_symbols_and_select_archive_entries", "into_iter", "loaded"): ("indexed", None, "each ResolvedFile is placed by its file_id into resolved_groups[group].files[file]"),
+    ("libwild::resolution::resolve_symbols_and_select_archive_entries", "into_iter", "loaded_lto_objects"): ("indexed", None, "(feature `plugins`) each ResolvedLtoInput is placed by its file_id into resolved_groups[group].files[file]"),
     ("libwild::string_merging::MergedStringsSection::add_input_sections", "take", "overflowed_offsets"): ("map-insert", None, "moved out, then inserted into a map keyed by input offset"),
     ("libwild::string_merging::MergedStringsSection::add_input_sections", "into_iter", ""): ("map-insert", None, "overflowed offsets are inserted into a map keyed by input offset"),
     ("libwild::string_merging::MergedStringsSection::add_input_sections", "into_iter", "finished_buckets"): ("sort", "libwild::string_merging::MergedStringsSection::add_input_sections", "buckets.sort_by_key(index)"),
